@@ -20,9 +20,17 @@ inductive Traces (m : MDef) : Nat → List Ev → Nat → Prop
       Traces m dst es1 c1 → Traces m c1 es2 c2 → Traces m c2 es3 c3 →
       Traces m c (.leave c :: .enter dst :: (es1 ++ .called name :: (es2 ++ es3))) c3
 
+theorem traces_append {m : MDef} {c c1 c2 : Nat} {es es' : List Ev} (h1 : Traces m c es c1) (h2 : Traces m c1 es' c2) :
+    Traces m c (es ++ es') c2 := by
+  induction h1 with
+  | nil => exact h2
+  | cons hl hc t1 t2 _ _ _ ih3 =>
+    have := Traces.cons hl hc t1 t2 (ih3 h2)
+    simpa [List.append_assoc] using this
+
 structure FlatH (m : MDef) (h : Handlers) : Prop where
   flat : isFlat m
-  noLeave : ∀ s st, h (.leave s) st = []
+  noLeave : ∀ s, h (.leave s) = []
 
 theorem inv_flat {m : MDef} (hf : isFlat m) (st : St) : Inv m st ↔ ∀ x, st.active x = decide (x = st.cur) := by
   unfold SecsModel.Model.SM.Inv
@@ -74,6 +82,8 @@ theorem flat_all {m : MDef} {h : Handlers} (H : FlatH m h) : ∀ f,
         st'.log = st.log ++ (.leave st.cur :: .enter dst :: (es1 ++ .called name :: es2))) ∧
     -- performAll
     (∀ st names, Inv m st → NF (performAll m h f st names) → Post m st.cur st.log [] (performAll m h f st names)) ∧
+    -- runCallbacks
+    (∀ st cbs, Inv m st → NF (runCallbacks m h f st cbs) → Post m st.cur st.log [] (runCallbacks m h f st cbs)) ∧
     -- fire
     (∀ st ev, Inv m st → NF (fire m h f st ev) → Post m st.cur st.log [ev] (fire m h f st ev)) ∧
     -- enter (called on the new current state, every flag cleared by the preceding leave)
@@ -82,10 +92,10 @@ theorem flat_all {m : MDef} {h : Handlers} (H : FlatH m h) : ∀ f,
   intro f
   induction f with
   | zero =>
-    refine ⟨?_, ?_, ?_, ?_⟩ <;> intros <;> rename_i hnf <;> simp [NF, perform, performAll, fire, enter, Out.err] at hnf
+    refine ⟨?_, ?_, ?_, ?_, ?_⟩ <;> intros <;> rename_i hnf <;> simp [NF, perform, performAll, runCallbacks, fire, enter, Out.err] at hnf
   | succ f ih =>
-    obtain ⟨ihP, ihA, ihF, ihE⟩ := ih
-    refine ⟨?_, ?_, ?_, ?_⟩
+    obtain ⟨ihP, ihA, ihC, ihF, ihE⟩ := ih
+    refine ⟨?_, ?_, ?_, ?_, ?_⟩
     · -- perform
       intro st name hinv hnf
       simp only [perform] at hnf ⊢
@@ -147,11 +157,32 @@ theorem flat_all {m : MDef} {h : Handlers} (H : FlatH m h) : ∀ f,
           obtain ⟨es3, hlog3, tr3⟩ := t3 st' hst'
           refine ⟨_, ?_, Traces.cons hl hc tr1 tr2 tr3⟩
           rw [hlog3, hlog]; simp
+    · -- runCallbacks
+      intro st cbs hinv hnf
+      cases cbs with
+      | nil => exact ⟨hinv, fun st' e => ⟨[], by simp [runCallbacks] at e; subst e; simp, by simp [runCallbacks] at e; subst e; exact Traces.nil⟩⟩
+      | cons cb rest =>
+        simp only [runCallbacks] at hnf ⊢
+        cases h1 : performAll m h f st (cb st) with
+        | fail e s1 =>
+          simp only [h1] at hnf ⊢
+          have := (ihA st (cb st) hinv (by rw [h1]; exact hnf)).1
+          rw [h1] at this
+          exact ⟨this, by simp⟩
+        | ok s1 =>
+          simp only [h1] at hnf ⊢
+          obtain ⟨i1, t1⟩ := ihA st (cb st) hinv (by rw [h1]; simp [NF, Out.err])
+          rw [h1] at i1
+          obtain ⟨es1, hlog1, tr1⟩ := t1 s1 h1
+          obtain ⟨i3, t3⟩ := ihC s1 rest i1 hnf
+          refine ⟨i3, fun st' hst' => ?_⟩
+          obtain ⟨es3, hlog3, tr3⟩ := t3 st' hst'
+          exact ⟨es1 ++ es3, by rw [hlog3, hlog1]; simp, traces_append tr1 tr3⟩
     · -- fire
       intro st ev hinv hnf
       simp only [fire] at hnf ⊢
       have hinv1 : Inv m { st with log := st.log ++ [ev] } := hinv
-      obtain ⟨i, t⟩ := ihA _ _ hinv1 hnf
+      obtain ⟨i, t⟩ := ihC _ _ hinv1 hnf
       exact ⟨i, fun st' hst' => by obtain ⟨es, hl, tr⟩ := t st' hst'; exact ⟨es, by simpa using hl, tr⟩⟩
     · -- enter
       intro st src hclr hnf
@@ -170,7 +201,7 @@ theorem flat_all {m : MDef} {h : Handlers} (H : FlatH m h) : ∀ f,
         rw [h1] at this
         exact ⟨this, by simp⟩
       | ok s1 =>
-        simp only [h1]
+        simp only
         have := ihF _ _ hinv0 (by rw [h1]; simp [NF, Out.err])
         rw [h1] at this
         exact this
